@@ -154,6 +154,10 @@ func genResp(k *kernel.K, id int, method string, maxSize int) *RespSpec {
 	if method == "HEAD" {
 		if w.Chance(1, 2) {
 			rs.HeadCL = len(rs.Body)
+		} else if rs.Framing == "chunked" && w.Chance(1, 2) {
+			// the header fields the GET would have had, framing included (RFC 7230 section 3.3.1)
+			rs.Header = append(rs.Header, wire.HF{Name: "Transfer-Encoding", Value: "chunked"})
+			rs.HeadChunked = true
 		}
 		rs.Body = nil
 		if rs.Framing == "close" {
